@@ -10,7 +10,7 @@ import os
 from simkit import gen, model
 from simkit.harness import HarnessError, World
 
-TIERS = {"C17": {"quick": 1000, "thorough": 30000}}
+TIERS = {"C17": {"quick": 1000, "thorough": 10000}}
 LEVEL = {"C17": "exploration"}
 RULE = {
     "C17": "scenario = logical index (explicit files with explicit parents + 1-3 directory "
